@@ -29,8 +29,10 @@ def prepare(rp, ce, params):
     tr = ce.get("trace") or []
     if any(t.startswith("computed=") for t in tr):
         return two_pass(ce, m, tr)
+    if any(t.startswith("res0=") for t in tr):
+        return set_level(ce, m, tr)
     if not any(t.startswith("parents=") for t in tr):
-        return None, "set-level harness: not replayed natively"
+        return None, "not replayed natively"
     npar = trace_val(ce, "parents")
     if trace_val(ce, "big"): return None, "limit case: not replayed"
     pst = [(seq(m, f"ps{k}_") + [0] * 4)[:trace_val(ce, f"ps{k}_len")] for k in range(npar)]
@@ -103,4 +105,27 @@ def two_pass(ce, m, tr):
         if "panic" in out: return True, "real code panics: " + out["panic"][:200]
         ok = out.get("result") == "ok"
         return (not ok), f"leaf programs comparing post-state reads with the proposed values {'are satisfied' if ok else 'fail: ' + out.get('err', '')[:140]}"
+    return fields, judge
+
+
+def set_level(ce, m, tr):
+    """the per-solution outcomes of the model realised by one-leaf predicates (ok: [1]; data: an empty mutation list; fail: a
+    program that pops an empty stack); lower-indexed solutions run longer, so completion order differs from index order on a pool
+    with several threads.  The reported failing solution indices must be all failing ones, ascending."""
+    import re
+    ns = 1 + trace_val(ce, "solutions")
+    kinds = [trace_val(ce, f"res{s_}") for s_ in range(ns)]
+    fields = dict(kind="check_multi", n=str(ns), collect_all="0")
+    for k, kd in enumerate(kinds):
+        delay = 40000 * (ns - 1 - k)
+        pad = f"Stack::Push:{200 + k};Stack::Pop:0;" + (f"Stack::Push:{delay};Stack::Push:1;Stack::Repeat:0;Stack::Push:0;Stack::Pop:0;Stack::RepeatEnd:0;" if delay else "")
+        fields[f"prog{k}"] = pad + ["Stack::Push:1", "Stack::Push:1;Memory::Alloc:0;Stack::Pop:0;Stack::Push:2", "Stack::Pop:0"][kd]
+    failing = [k for k, kd in enumerate(kinds) if kd == 2]
+
+    def judge(out):
+        if "panic" in out: return True, "real code panics: " + out["panic"][:200]
+        if "result" not in out: return False, "no result: " + str(out)[:200]
+        if not failing: return out["result"] != "ok", f"no failing solution; real: {out['result']} {out.get('err', '')[:100]}"
+        got = [int(x) for x in re.findall(r"\((\d+), ProgramErrors", out.get("err", ""))]
+        return out["result"] != "err" or got != failing, f"failing solutions: expected {failing}, real: {out['result']} {got}"
     return fields, judge
